@@ -112,6 +112,17 @@ def enumerated(tier, seed):
                     yield dict(prog={"org": 0x1000, "stmts": stmts}, T=dict(kind="rename", names=perm))
     yield from page_zero_pairs()
     yield from include_suffix_cases()
+    # a program whose last byte is at $FFFF followed by directives that emit nothing, re-spelled in lower / mixed case,
+    # with other white space and comments: still the same program
+    for tail in ([{"lab": "LAST", "k": "equ", "val": {"sym": "START", "op": "", "c": 0}}], [{"lab": "", "k": "nam", "text": "TOP"}],
+                 [{"lab": "", "k": "setdp", "dp": 0}], [{"lab": "", "k": "end", "to": "START"}],
+                 [{"lab": "SIZE", "k": "equ", "val": {"lit": 3, "sp": "dec"}}, {"lab": "", "k": "nam", "text": "TOP"}, {"lab": "", "k": "end", "to": None}]):
+        stmts = [{"lab": "", "k": "org", "addr": 0xFFFD}, {"lab": "START", "k": "imm8", "mn": "LDA", "val": {"lit": 1, "sp": "dec"}},
+                 {"lab": "", "k": "inh", "mn": "NOP"}] + tail
+        for case_style in (1, 2):
+            for ws in (" ", "\t"):
+                lay = dict(ws1=ws, ws2=ws, ws3=" ", cmt=None if ws == " " else "note", case=case_style, trail="")
+                yield dict(prog={"org": 0xFFFD, "stmts": stmts}, T=dict(kind="layout", layouts=[lay]))
 
 
 def include_suffix_cases():
